@@ -78,7 +78,7 @@ def gen(tier, seed, boost=False):
     rd.shuffle(tabs)
     tabs = tabs[:150 if tier == 'quick' else 450] + [G.random_table(rd, 6, 5, nmin=3, mmin=3) for _ in range(120 if tier == 'quick' else 1500)]
     for rows in tabs:
-        for how in ('build', 'readd', 'del', 'del'):
+        for how in ('build', 'readd', 'del', 'del', 'merge', 'merge'):
             yield dict(stream='dynamic', rows=rows, algo='CbO', sub_seed=rd.randrange(1 << 30), dyn=[how, rd.randrange(1 << 30)])
     # larger, mostly non-graded lattices built concept by concept in several orders
     for _ in range(150 if tier == 'quick' else 2000):
@@ -188,6 +188,24 @@ def _impl(c):
                         L.remove(L[r.choice(inner_i)])
                     for _k in range(r.randint(0, 2)):
                         r.choice([L.children, L.parents])(r.randrange(len(L)))
+            elif dyn[0] == 'merge' and len(cs) >= 3:
+                # remove some inner concepts (some of them re-added and removed again, with and without cache filling),
+                # then merge the full concept list back in: concepts that are already present (top and bottom
+                # included) are no-ops, the missing ones are inserted
+                for _ in range(r.randint(1, 3)):
+                    inner_i = [i for i in range(len(L)) if i not in (L.top, L.bottom)]
+                    if not inner_i:
+                        break
+                    x = L[r.choice(inner_i)]
+                    L.remove(x)
+                    if r.random() < 0.5:
+                        L.add(x, fill_up_cache=r.random() < 0.5)
+                        if r.random() < 0.6:
+                            L.remove(x)
+                order = list(cs)
+                r.shuffle(order)
+                for x in order:
+                    L.add(x, fill_up_cache=r.random() < 0.6)
             elif dyn[0] == 'readd' and len(cs) >= 3:
                 for _ in range(r.randint(0, 4)):
                     i = r.randrange(len(L))
